@@ -1264,7 +1264,11 @@ impl<E: Effect> Executor<E> {
                     }
                     Some(Err(error)) => {
                         // Error - propagate to awaiter by setting their result
-                        if let Some(awaiter_process) = self.get_process_mut(awaiter) {
+                        // A process that already finished keeps its result: it awaited this
+                        // one in an earlier select (e.g. a timeout won) and no longer waits.
+                        if let Some(awaiter_process) = self.get_process_mut(awaiter)
+                            && awaiter_process.result.is_none()
+                        {
                             awaiter_process.result = Some(Err(error.clone()));
                             awaiter_process.frames.clear();
                         }
